@@ -280,6 +280,15 @@ int main()
             if (!ok) { std::cout << "bad-op" << std::endl; continue; }
             fin("m=" + std::to_string(planner->opAdd(x)));
         }
+        else if (op == "clear" && t.size() == 1)
+        {
+            // control::EST::clear(): frees every motion, clears the grid and the PDF; the planner is then used again
+            planner->clear();
+            planner->ids.clear();
+            for (auto &m : planner->byId)
+                m = nullptr;
+            fin("ok");
+        }
         else if (op == "sel" && t.size() == 2 && t[1] == "s")
         {
             if (planner->pdfEmpty()) { fin("empty"); continue; }
